@@ -313,6 +313,15 @@ func DataSelector(r *rand.Rand) (datamodel.Node, string) {
 			ssb.ExploreRange(0, int64(1+r.Intn(3)), ssb.ExploreRecursiveEdge()),
 		)).Node(), "recursive-fields-index-range"
 	case x < 19:
+		if r.Intn(2) == 0 {
+			// several fields inserted in non-canonical key order
+			ks := []string{"l", "d", "c", "b", "a"}[r.Intn(3):]
+			return ssb.ExploreFields(func(efsb builder.ExploreFieldsSpecBuilder) {
+				for _, k := range ks {
+					efsb.Insert(k, all(selector.RecursionLimitDepth(int64(2+r.Intn(6)))))
+				}
+			}).Node(), "fields-in-non-canonical-order"
+		}
 		return ssb.ExploreRecursive(selector.RecursionLimitNone(), ssb.ExploreUnion(ssb.Matcher(), ssb.ExploreAll(ssb.ExploreRecursiveEdge()))).Node(), "recursive-all-with-matcher"
 	default:
 		o := SelOpts{MaxDepth: 4, Fields: dagKeys, MaxIndex: 3, Limits: []int64{1, 2, 3, 5, -1}, InterpretP: 0, RecursionP: 40}
